@@ -633,10 +633,183 @@ def task_screen(args):
             acc.validated += 1
     return acc
 
+# ----------------------------------------------------------------------------- sequences on one shared instance
+
+
+def trigger_zone_lists(t):
+    """Zone lists (small boxes around nominal loudspeaker positions) for which the Cartesian row extension alters
+    the zone mask: excluding one side-wall loudspeaker adds its row mates ("row-extended"); excluding everything
+    but a row mate makes the extension cover all loudspeakers ("reset" - the known finding's trigger)."""
+    out = []
+    allo, n = t["allo"], t["n"]
+
+    def boxes(idx):
+        return [dict(t="c", minX=t["spk"][i][0] - 1e-3, maxX=t["spk"][i][0] + 1e-3, minY=t["spk"][i][1] - 1e-3,
+                     maxY=t["spk"][i][1] + 1e-3, minZ=t["spk"][i][2] - 1e-3, maxZ=t["spk"][i][2] + 1e-3) for i in idx]
+
+    for i, c in enumerate(allo):
+        if abs(c[0]) == 1.0 and abs(c[1]) != 1.0:
+            mates = [k for k, c2 in enumerate(allo) if k != i and c2[1] == c[1] and c2[2] == c[2]]
+            if mates:
+                out.append((boxes([i]), "row-extended"))
+                out.append((boxes([k for k in range(n) if k != mates[0]]), "reset"))
+    return out
+
+
+def _copy_zones(zones):
+    return [dict(z) for z in zones]  # an equal, not identical, zone list (as consecutive blocks carry)
+
+
+def lock_expect(t, lay, o):
+    """Expected lock outcome for a point object `o` (zones allowed on the Cartesian path only)."""
+    from ear.core.geom import cart as to_cart
+
+    n = t["n"]
+    cart = bool(o.get("cartesian"))
+    keys = [(abs(e), e, abs(a), a) for a, e in t["azel"]]
+    allowed = [True] * n
+    if cart:
+        P = np.array(t["allo"])
+        p = np.clip(np.array([o["position"]["X"], o["position"]["Y"], o["position"]["Z"]]), -1, 1)
+        if o.get("zones"):
+            sm = spec_mask(t, o["zones"])
+            if any(v is None for v in sm):
+                return ("skip", "zone membership ambiguous")
+            ext = row_extension(t["allo"], sm)
+            allowed = [True] * n if all(ext) else [not b for b in ext]
+    else:
+        if o.get("zones"):
+            return ("skip", "polar lock with zones: the downmix may spread the locked gain")
+        P = np.array(lay.without_lfe.norm_positions, dtype=float)
+        p = to_cart(o["position"]["azimuth"], o["position"]["elevation"], o["position"]["distance"])
+    return lock_spec(P, keys, allowed, p, o["lock"], cart)
+
+
+def gen_sequence(rng, t, layout_name, with_trigger):
+    """2..6 blocks for one GainCalc instance: alternating Cartesian / polar, lock / no lock, drawing their
+    zoneExclusion from a small pool so that equal lists recur across blocks and across the two paths."""
+    pool, labels = [], []
+    trig = trigger_zone_lists(t)
+    if with_trigger and trig:
+        z, lab = rng.choice(trig)
+        pool.append(z)
+        labels.append("trigger:" + lab)
+    while len(pool) < 2:
+        z, _k = gen_zone_list(rng, t)
+        pool.append(z)
+        labels.append("generated")
+    L = rng.randint(2, 6)
+    start_cart = True if (with_trigger and trig) else rng.random() < 0.5
+    lock_phase = rng.randrange(2)
+    blocks = []
+    for b in range(L):
+        cart = (b % 2 == 0) == start_cart
+        if b < 2 and with_trigger and trig:
+            zi = 0
+        else:
+            zi = rng.randrange(len(pool)) if rng.random() < 0.8 else None
+        zones = _copy_zones(pool[zi]) if zi is not None else []
+        near = None
+        if zones:
+            sm = spec_mask(t, zones)
+            ex = [i for i, v in enumerate(sm) if v]
+            if ex and rng.random() < 0.7:
+                near = rng.choice(ex)
+        o = dict(layout=layout_name, cartesian=cart, position=gen_position(rng, t, cart, near), zones=zones,
+                 gain=rng.choice([1.0, rng.uniform(0.1, 2.0)]), diffuse=rng.choice([0.0, 0.5, rng.random()]))
+        if (b + lock_phase) % 2 == 0:
+            o["lock"] = rng.choice([None, None, rng.uniform(0.0, 1.5)])
+        elif rng.random() < 0.3:
+            gen_extent_div(rng, cart, o)
+        blocks.append((o, labels[zi] if zi is not None else "no zones"))
+    return blocks
+
+
+def task_sequence(args):
+    """`render` must be a function of the block alone: every block of a sequence rendered on ONE shared GainCalc
+    instance must give exactly the gains the same block gives on an instance that has rendered nothing before;
+    the shared instance's gains are also run through the zone and lock predicates."""
+    import copy
+    from attr import evolve  # noqa: F401
+    from ear.core import bs2051
+    from ear.core.objectbased.gain_calc import GainCalc
+
+    layout_name, count, seed = args
+    rng = random.Random(seed)
+    _gc, lay, t = _gain_calc(layout_name)
+    pristine = GainCalc(bs2051.get_layout(layout_name))  # never renders; deep copies of it are the fresh instances
+    acc = Acc()
+    n = t["n"]
+    for s in range(count):
+        blocks = gen_sequence(rng, t, layout_name, with_trigger=(s % 2 == 0))
+        shared = copy.deepcopy(pristine) if s % 3 else GainCalc(bs2051.get_layout(layout_name))
+        acc.count("sequence %s" % layout_name)
+        acc.count("sequence length %d" % len(blocks))
+        seen = []
+        for b, (o, zlabel) in enumerate(blocks):
+            direct, diffuse, lfe_ok = _render(shared, lay, o)
+            fd, ff, _ok = _render(copy.deepcopy(pristine), lay, o)
+            seen.append(o)
+            path = "cartesian" if o["cartesian"] else "polar"
+            acc.case(dict(seq=repr(seen)), sample={"predicate": "render is a function of the block (sequence on one instance)",
+                                                   "sequence": list(seen)} if b == len(blocks) - 1 else None)
+            acc.count("sequence block %s zones:%s%s" % (path, zlabel, " +channelLock" if "lock" in o else ""))
+            if b > 0:
+                prev = blocks[b - 1][0]
+                if o["zones"] and prev["zones"] == o["zones"]:
+                    acc.count("sequence block repeats the previous block's zone list (%s after %s)" % (
+                        path, "cartesian" if prev["cartesian"] else "polar"))
+            same = np.array_equal(direct, fd, equal_nan=True) and np.array_equal(diffuse, ff, equal_nan=True)
+            if not same:
+                diff = [i for i in range(n) if direct[i] != fd[i] or diffuse[i] != ff[i]]
+                acc.hit("render depends on earlier blocks: gains on a shared GainCalc differ from a fresh instance",
+                        {"layout": layout_name, "sequence": list(seen)},
+                        {"block_index": b, "channels": [t["names"][i] for i in diff],
+                         "shared_instance": {"direct": [float(direct[i]) for i in diff], "diffuse": [float(diffuse[i]) for i in diff]},
+                         "fresh_instance": {"direct": [float(fd[i]) for i in diff], "diffuse": [float(ff[i]) for i in diff]}})
+                break  # later blocks of this sequence are not judged on a corrupted instance
+            acc.validated += 1
+            # zone predicate on the shared instance's gains
+            if o["zones"]:
+                sm = spec_mask(t, o["zones"])
+                k = sum(1 for v in sm if v)
+                if all(v is not None for v in sm) and 0 < k < n:
+                    loud = [i for i in range(n) if sm[i] and not (direct[i] == 0.0 and diffuse[i] == 0.0)]
+                    if loud or not lfe_ok:
+                        covers = bool(o["cartesian"] and all(row_extension(t["allo"], sm)))
+                        acc.hit("excluded loudspeaker has non-zero gain", o,
+                                {"channels": [t["names"][i] for i in loud], "direct": [float(direct[i]) for i in loud],
+                                 "diffuse": [float(diffuse[i]) for i in loud], "zone_mask": "".join("01"[bool(v)] for v in sm),
+                                 "row_extension_covers_all": covers, "in_sequence": True}, [TAG] if covers else [])
+                    else:
+                        acc.validated += 1
+            # lock predicate (point objects)
+            if "lock" in o and not (o.get("width") or o.get("height") or o.get("depth") or o.get("divergence")):
+                exp = lock_expect(t, lay, o)
+                if exp[0] == "locked":
+                    w = exp[1]
+                    power = math.sqrt(direct[w] ** 2 + diffuse[w] ** 2)
+                    others = max([max(abs(direct[i]), abs(diffuse[i])) for i in range(n) if i != w] or [0.0])
+                    if not (abs(power - o["gain"]) <= 1e-9 and others <= 1e-9):
+                        acc.hit("channelLock: not reproduced by exactly the nearest loudspeaker (documented distance/priority)", o,
+                                {"expected": t["names"][w], "direct": direct.tolist(), "diffuse": diffuse.tolist(), "in_sequence": True})
+                    else:
+                        acc.validated += 1
+                elif exp[0] == "unchanged":
+                    o2 = dict(o)
+                    o2.pop("lock")
+                    d2, f2, _ = _render(copy.deepcopy(pristine), lay, o2)
+                    if not (np.array_equal(direct, d2) and np.array_equal(diffuse, f2)):
+                        acc.hit("channelLock with maxDistance: no loudspeaker within the distance but gains differ from the unlocked render", o,
+                                {"locked_render": direct.tolist(), "unlocked_render": d2.tolist(), "in_sequence": True})
+                    else:
+                        acc.validated += 1
+    return acc
+
 
 def _run_task(a):
     kind, args = a
-    return {"zone": task_zone, "lock": task_lock, "screen": task_screen}[kind](args)
+    return {"zone": task_zone, "lock": task_lock, "screen": task_screen, "sequence": task_sequence}[kind](args)
 
 
 def run_search(ctx, deep):
@@ -644,13 +817,13 @@ def run_search(ctx, deep):
 
     names = list(bs2051.layout_names)
     if ctx.quick and not deep:
-        per = dict(zone=80, lock=40, screen=16)
+        per = dict(zone=80, lock=40, screen=16, sequence=8)
         procs, split = 12, 1
     elif ctx.quick:
-        per = dict(zone=320, lock=160, screen=48)
+        per = dict(zone=320, lock=160, screen=48, sequence=30)
         procs, split = 16, 2
     else:
-        per = dict(zone=2000, lock=800, screen=350)
+        per = dict(zone=2000, lock=800, screen=350, sequence=250)
         procs, split = 16, 8
     rng = ctx.rng
     custom = [s for s in (gen_screen(rng) for _ in range(6)) if s is not None][: (2 if ctx.quick else 4)]
@@ -665,6 +838,8 @@ def run_search(ctx, deep):
                 tasks.append(("zone", (name, cart, c, rng.getrandbits(64))))
                 tasks.append(("lock", (name, cart, max(1, per["lock"] // split), rng.getrandbits(64))))
         tasks.append(("screen", (name, None, per["screen"], rng.getrandbits(64))))
+        for _ in range(split):
+            tasks.append(("sequence", (name, max(2, per["sequence"] // split), rng.getrandbits(64))))
     for i, s in enumerate(custom):
         for name in (["0+5+0", "4+5+0"] if ctx.quick else ["0+2+0", "0+5+0", "4+5+0", "4+7+0", "9+10+3"]):
             tasks.append(("screen", (name, s, per["screen"], rng.getrandbits(64))))
